@@ -7,7 +7,7 @@
            'setup_redirect / setup_process_substitution / expand_assignment / full_expand_and_split_word / execute_command / apply_assignment -> oracles recording the order in which they are called; a redirect setup may fail (symbolic)',
            'crate::error::Error -> small stand-in inside the harness module'],
  'assumptions': ['shapes: `A=1 <r0 cmd <r1 arg` (with command) and `A=1 <r0 B=2` (no command); every word expands to exactly one field'],
- 'out_of_claim': ['what a redirect opens (decided for the open-mode table under C10)', 'process substitution', 'aliases', 'field splitting of the words'],
+ 'out_of_claim': ['what a redirect opens (decided for the open-mode table under C10)', 'process substitution', 'alias lookup and the text of the alias (the number of words it splits into is symbolic)', 'field splitting of the words'],
 }
 @*/
 /*@recipes
@@ -32,8 +32,12 @@ macro_rules! vec { () => { Vec::new() }; }
 #[derive(Clone, Copy)]
 pub struct Fld(pub u8);
 impl Fld { pub fn as_str(&self) -> &str { "" } pub fn to_owned(&self) -> Fld { *self } }
-pub struct AliasTok;
-impl AliasTok { pub fn split_ascii_whitespace(&self) -> std::iter::Empty<&'static Fld> { std::iter::empty() } }
+/// an alias value: splits into `n` (0..2) words
+pub struct AliasTok { pub n: usize }
+static ALIAS_WORDS: [Fld; 2] = [Fld(70), Fld(71)];
+pub struct AliasWords { i: usize, n: usize }
+impl Iterator for AliasWords { type Item = &'static Fld; fn next(&mut self) -> Option<&'static Fld> { let i = self.i; self.i += 1; if i >= 2 { None } else if i >= self.n { None } else { Some(&ALIAS_WORDS[i]) } } }
+impl AliasTok { pub fn split_ascii_whitespace(&self) -> AliasWords { AliasWords { i: 0, n: self.n } } }
 
 pub mod error { pub struct Error(pub u8); impl std::fmt::Display for Error { fn fmt(&self, _f: &mut std::fmt::Formatter<'_>) -> std::fmt::Result { Ok(()) } } }
 
@@ -47,8 +51,8 @@ pub enum CommandArg { String(Fld), Assignment(u8) }
 pub struct BReg { pub disabled: bool, pub declaration_builtin: bool }
 pub struct BTable { pub decl: Option<BReg> }
 impl BTable { pub fn get(&self, _n: &str) -> Option<&BReg> { self.decl.as_ref() } }
-pub struct ATable;
-impl ATable { pub fn get(&self, _n: &str) -> Option<&AliasTok> { None } }
+pub struct ATable { pub alias: Option<AliasTok> }
+impl ATable { pub fn get(&self, _n: &str) -> Option<&AliasTok> { self.alias.as_ref() } }
 pub struct DSh { pub b: BTable, pub a: ATable, pub status: u8, pub status_changes: u32, pub last_arg_cleared: u8, pub displayed: u8 }
 impl DSh {
     pub fn last_exit_status_change_count(&self) -> u32 { self.status_changes }
@@ -98,7 +102,7 @@ fn t_sc_items(this: &SC, mut context: PipelineExecutionContext<'_>, mut params: 
 /*@LIFT sc_items*/
 }
 
-fn mk_sh(decl: bool) -> DSh { DSh { b: BTable { decl: if decl { Some(BReg { disabled: false, declaration_builtin: true }) } else { None } }, a: ATable, status: 42, status_changes: 0, last_arg_cleared: 0, displayed: 0 } }
+fn mk_sh(decl: bool) -> DSh { DSh { b: BTable { decl: if decl { Some(BReg { disabled: false, declaration_builtin: true }) } else { None } }, a: ATable { alias: None }, status: 42, status_changes: 0, last_arg_cleared: 0, displayed: 0 } }
 
 //@proof {'props': ['C10', 'C09', 'C02'], 'tier': 'quick', 'timeout': 900, 'uses': ['sc_items'], 'bounds': 'the command `A=1 <r0 cmd <r1 B=2 arg`; one of the two redirections may fail (symbolic); cmd is a declaration builtin or not (symbolic); the command itself may fail with an error', 'desc': 'a simple command: prefix, name and suffix items are processed strictly left to right (redirections and word expansions interleaved in textual order); a failing redirection stops everything, the command does not run and the status is 1 with normal flow; the prefix assignment is handed to the command (temporary), never applied globally; an assignment-looking word after the name is an argument; an error from the command is displayed and becomes a status (never propagates as Err)'}
 #[kani::proof]
@@ -160,5 +164,29 @@ fn vk_c09_assignment_only_statement() {
         assert!(sh.last_arg_cleared == 1, "C09.assign_only.last_arg_cleared");
         assert!(sh.status == 0 && matches!(&r, Ok(ExecutionSpawnResult::Completed(x)) if u8::from(x.exit_code) == 0 && x.is_normal_flow()), "C02.assign_only.status_zero");
     }
+    std::mem::forget(r); std::mem::forget(sc);
+}
+
+//@proof {'props': ['C01', 'C02'], 'tier': 'quick', 'timeout': 900, 'uses': ['sc_items'], 'bounds': 'the command `name arg` where name is or is not an alias (symbolic) whose value splits into 0, 1 or 2 words', 'desc': 'alias replacement in command position: whatever the alias value splits into - including nothing (alias e="") - the command never panics; the alias words replace the name and the remaining words follow'}
+#[kani::proof]
+#[kani::unwind(10)]
+fn vk_c01_alias_in_command_position() {
+    let mut suf = std::vec::Vec::with_capacity(1); suf.push(CommandPrefixOrSuffixItem::Word(2));
+    let has_arg: bool = kani::any();
+    let sc = SC { prefix: None, word_or_name: Some(1), suffix: if has_arg { Some(ItemList(suf)) } else { std::mem::forget(suf); None } };
+    let mut sh = mk_sh(false);
+    let n: usize = kani::any(); kani::assume(n <= 2);
+    let is_alias: bool = kani::any();
+    if is_alias { sh.a.alias = Some(AliasTok { n }); }
+    let mut o = IOracle { ev: [(0, 0); 8], n: 0, redirect_fail: 0, exec_fails: false, exec_assignments: 0, exec_args: 0, code: kani::any(), expansion_sets_status: false };
+    let ctx = PipelineExecutionContext { shell: commands::ShellForCommand::ParentShell(&mut sh), process_group_id: None };
+    let r = t_sc_items(&sc, ctx, Params { open_files: OpenFilesTok }, &mut o);
+    kani::cover!(is_alias && n == 0 && !has_arg, "alias_expanding_to_nothing_alone");
+    kani::cover!(is_alias && n == 2 && has_arg, "two_word_alias_with_an_argument");
+    assert!(r.is_ok(), "C02.simple.never_propagates_err");
+    let words = if is_alias { n } else { 1 } + has_arg as usize;
+    let mut execs = 0; let mut k = 0; while k < 8 { if k < o.n && o.ev[k].0 == 4 { execs += 1; } k += 1; }
+    if words > 0 { assert!(execs == 1 && o.exec_args == words, "C02.alias.words_replace_the_name_and_the_rest_follows"); }
+    else { assert!(execs == 0, "C02.alias.nothing_to_run"); }
     std::mem::forget(r); std::mem::forget(sc);
 }
